@@ -56,6 +56,8 @@ fn check(case: &Case, p: &mut Probe) -> Check {
     let mut class_limit0_after_iter = false;
     let mut class_fail_before_success = false;
     let mut class_limit_change = false;
+    let moved = (case.h.ones.len() + 5 * case.calls.len()) % 12 == 7 && case.calls.len() >= 2;
+    p.class_if(moved, "decoder-used-on-another-thread");
     for imp in factory_variants() {
         let name = imp.to_string();
         let mut long_lived = build_factory(&imp, hs.clone());
@@ -64,7 +66,14 @@ fn check(case: &Case, p: &mut Probe) -> Check {
         let mut failed = false;
         for (i, call) in case.calls.iter().enumerate() {
             let llrs = fx_vec(&call.llrs);
-            let got = guarded(|| long_lived.decode(&llrs, call.limit)).map_err(|e| Fail::new("panic", format!("{name}: call {i} panicked on the long-lived decoder: {e}")))?;
+            // one history in twelve: every second call on the long-lived decoder runs on another thread
+            // (a simulation engine builds its decoders on one thread and hands them to workers)
+            let got = if moved && i % 2 == 1 {
+                guarded(|| on_other_thread(|| long_lived.decode(&llrs, call.limit)))
+            } else {
+                guarded(|| long_lived.decode(&llrs, call.limit))
+            }
+            .map_err(|e| Fail::new("panic", format!("{name}: call {i} panicked on the long-lived decoder: {e}")))?;
             let mut fresh = build_factory(&imp, hs.clone());
             let want = guarded(|| fresh.decode(&llrs, call.limit)).map_err(|e| Fail::new("panic", format!("{name}: call {i} panicked on a fresh decoder: {e}")))?;
             p.inner += 1;
